@@ -1,5 +1,6 @@
 import HpxVerif.Lemmas.BmocAnd
 import HpxVerif.Lemmas.BmocNot
+import HpxVerif.Lemmas.BmocXor3
 
 /-!
 # C07 — BMOC logical operators implement set algebra on plain MOCs
@@ -9,8 +10,9 @@ complement / intersection / union / symmetric difference.  Proved here: `and` is
 well-formed MOCs and its result is again a MOC (all flags full); **`not` is the complement for every well-formed
 in-range MOC of depth ≤ 29** (`not_sem`; through `go_up` / `go_down` / `dd_4_go_up`, the latter by the highest differing
 bit pair of the two cell numbers), its result is a well-formed in-range MOC (`not_is_moc`, `not_wf`), `not ∘ not = id` and
-`A ∩ Aᶜ = ∅` as corollaries.  Open statements (model validated by the correspondence check on the exhaustive one- and
-two-level universes and random trees, theorems not yet proved): `or_sem`, `xor_sem`, `moc_canonical`.
+`A ∩ Aᶜ = ∅` as corollaries.  **`xor` is the symmetric difference** (`xor_sem`, public operator with `pack`; `xor_self_empty`).
+Open statements (model validated by the correspondence check on the exhaustive one- and
+two-level universes and random trees, theorems not yet proved): `or_sem`, `moc_canonical`.
 -/
 
 namespace Hpx.C07
@@ -109,5 +111,25 @@ example : WF 2 [⟨1, 5, true⟩, ⟨2, 40, true⟩] ∧ (∀ c ∈ [(⟨1, 5, t
     rcases hc with rfl | rfl <;> simp [InR]
   · intro c hc; simp only [List.mem_cons, List.not_mem_nil, or_false] at hc
     rcases hc with rfl | rfl <;> rfl
+
+/-- **`xor` is the symmetric difference on plain MOCs** (public operator, `pack` included): the result has no partial
+    cell and contains exactly the deepest-level cells that belong to one operand and not to the other -/
+theorem xor_sem (A B : BMOC) (hdm : max A.dmax B.dmax ≤ 29)
+    (hwA : WF (max A.dmax B.dmax) A.cells) (hwB : WF (max A.dmax B.dmax) B.cells)
+    (hrA : ∀ c ∈ A.cells, InR c) (hrB : ∀ c ∈ B.cells, InR c) (mA : IsMoc A.cells) (mB : IsMoc B.cells) :
+    ∃ R, BMOC.xor A B = some R ∧ ∀ x, stOf (max A.dmax B.dmax) R.cells x ≠ .part ∧
+      (mem (max A.dmax B.dmax) R.cells x ↔ ¬ (mem (max A.dmax B.dmax) A.cells x ↔ mem (max A.dmax B.dmax) B.cells x)) :=
+  bmoc_xor_moc A B hdm hwA hwB hrA hrB mA mB
+
+/-- `a xor a = ∅` -/
+theorem xor_self_empty (A : BMOC) (hdm : A.dmax ≤ 29) (hwA : WF A.dmax A.cells) (hrA : ∀ c ∈ A.cells, InR c)
+    (mA : IsMoc A.cells) : ∃ R, BMOC.xor A A = some R ∧ ∀ x, stOf A.dmax R.cells x = .abs := by
+  have h := bmoc_xor_spec A A (by simpa using hdm) (by simpa using hwA) (by simpa using hwA) hrA hrA
+  obtain ⟨R, hR, _, _, _, _, _, hs⟩ := h
+  refine ⟨R, hR, fun x => ?_⟩
+  have hx := hs x
+  simp only [Nat.max_self] at hx
+  rw [hx]
+  rcases stOf_moc mA (D := A.dmax) x with h1 | h1 <;> simp [h1, Tri.xor]
 
 end Hpx.C07
